@@ -86,6 +86,10 @@ type EapAkaPrime struct {
 	subType    EapAkaSubtype
 	reserved   uint16
 	attributes map[EapAkaPrimeAttrType]*EapAkaPrimeAttr
+
+	// Type data exactly as received, kept until an attribute is set.
+	// AT_MAC of a received message is calculated over these bytes.
+	received []byte
 }
 
 func NewEapAkaPrime(subType EapAkaSubtype) *EapAkaPrime {
@@ -112,6 +116,7 @@ func (eapAkaPrime *EapAkaPrime) SetAttr(attrType EapAkaPrimeAttrType, value []by
 	}
 
 	eapAkaPrime.attributes[attr.attrType] = attr
+	eapAkaPrime.received = nil
 	return nil
 }
 
@@ -370,7 +375,32 @@ func (eapAkaPrime *EapAkaPrime) Unmarshal(rawData []byte) error {
 		eapAkaPrime.attributes[attr.attrType] = attr
 	}
 
+	eapAkaPrime.received = append([]byte(nil), rawData...)
 	return nil
+}
+
+// receivedWithZeroMAC returns the type data as received with the value of AT_MAC set to zero.
+func (eapAkaPrime *EapAkaPrime) receivedWithZeroMAC() ([]byte, bool) {
+	headerLen := EapHeaderTypeLen + EapAkaHeaderSubtypeLen + EapAkaHeaderReservedLen
+	if len(eapAkaPrime.received) < headerLen {
+		return nil, false
+	}
+	data := append([]byte(nil), eapAkaPrime.received...)
+	found := false
+	for offset := headerLen; offset+EapAkaAttrTypeLen+EapAkaAttrLengthLen <= len(data); {
+		attrLen := 4 * int(data[offset+EapAkaAttrTypeLen])
+		if attrLen == 0 || offset+attrLen > len(data) {
+			return nil, false
+		}
+		if EapAkaPrimeAttrType(data[offset]) == AT_MAC && attrLen == 20 {
+			for i := offset + 4; i < offset+attrLen; i++ {
+				data[i] = 0
+			}
+			found = true
+		}
+		offset += attrLen
+	}
+	return data, found
 }
 
 func (eapAkaPrime *EapAkaPrime) initMAC() error {
